@@ -144,6 +144,190 @@ class ProgGen:
                 return True
         return False
 
+    # ------------------------------------------------------------------ high-rank fusion stream
+    FUSION_MODS = [[2], [2], [2], [3], [3], [1], [1], [4], [2, 2], [2, 1], [3, 2], []]
+    FUSION_LABELS = ['a', 'b', 'c', 'd', 'p', 'q', 'vL', 'vR', 'x1', 'p*', 'a*']
+
+    def fusion_leg(self, rng, mods, room):
+        """a small leg: 1-3 blocks of size 1-2 over few distinct charges (duplicate sectors likely), at most `room`
+        indices"""
+        nb = rng.choice([1, 2, 2, 3, 3])
+        sizes = [rng.choice([1, 1, 2, 2]) for _ in range(nb)]
+        while sum(sizes) > max(1, room) and len(sizes) > 1:
+            sizes.pop()
+        if sum(sizes) > max(1, room):
+            sizes = [1]
+        charges = [[rng.randint(-1, 1) if m == 1 else rng.randrange(m) for m in mods] for _ in sizes]
+        if rng.random() < 0.5:
+            charges.sort(key=npcgen.lexkey)
+        slices = [0]
+        for x in sizes:
+            slices.append(slices[-1] + x)
+        return dict(mods=list(mods), slices=slices, charges=charges, qconj=rng.choice([1, -1]),
+                    ctor=rng.choice(['init', 'qind', 'qind']))
+
+    def fusion_groups(self, rng, rank):
+        """(groups, new_axes | None) for combine_legs of a rank >= 5 tensor: trailing groups, several groups at once,
+        non-default positions of the pipes"""
+        r = rng.random()
+        if r < 0.4:       # the LAST k legs (the pipe lands on a trailing axis >= 4 by default), maybe a second group
+            k = rng.choice([1, 2, 2, 3])
+            k = min(k, rank - 4) if rng.random() < 0.7 and rank - 4 >= 1 else min(k, rank - 1)
+            last = list(range(rank - k, rank))
+            if rng.random() < 0.3:
+                rng.shuffle(last)
+            groups = [last]
+            rest = list(range(rank - k))
+            if len(rest) >= 2 and rng.random() < 0.4:
+                n = rng.choice([1, 2])
+                g2 = sorted(rng.sample(rest, n)) if rng.random() < 0.6 else rng.sample(rest, n)
+                groups.insert(rng.randrange(2), g2)
+            new_axes = None
+        else:             # random disjoint groups
+            axes = list(range(rank))
+            rng.shuffle(axes)
+            ng = rng.choice([1, 2, 2, 3])
+            groups, pos = [], 0
+            for _ in range(ng):
+                n = rng.choice([1, 2, 2, 3])
+                if pos + n > rank:
+                    break
+                g = axes[pos:pos + n]
+                groups.append(sorted(g) if rng.random() < 0.5 else g)
+                pos += n
+            new_axes = None
+        new_rank = rank - sum(len(g) for g in groups) + len(groups)
+        if rng.random() < 0.5:   # explicit positions; most of the time one pipe on the last axis
+            new_axes = rng.sample(range(new_rank), len(groups))
+            if rng.random() < 0.6 and new_rank - 1 not in new_axes:
+                new_axes[rng.randrange(len(groups))] = new_rank - 1
+            if rng.random() < 0.3:
+                new_axes = [x - new_rank if rng.random() < 0.5 else x for x in new_axes]
+        return groups, new_axes
+
+    def gen_fusion_case(self, rng, max_steps):
+        """Dedicated stream: a tensor of rank 5-7 over small legs -> [transpose] -> combine_legs of random groups
+        (trailing axes, several groups, explicit new_axes) -> split_legs / transpose + split_legs / contraction over
+        the pipes / nested combine_legs. Exercises the >= 4-dimensional block copies of _combine_legs_worker and
+        _split_legs_worker (compiled `_sliced_strided_copy` recursion vs numpy slicing), which the general stream
+        reaches about once in a thousand programs. Small legs keep the dense size <= ~500 entries."""
+        self.rng = rng
+        mods = list(rng.choice(self.FUSION_MODS))
+        rank = rng.choice([5, 6, 6, 6, 7])
+        cap = rng.choice([200, 350, 500])
+        legs, total = [], 1
+        for k in range(rank):
+            leg = self.fusion_leg(rng, mods, cap // (total * 2 ** max(0, rank - k - 3)) if k < rank - 1 else cap // total)
+            legs.append(leg)
+            total *= leg['slices'][-1]
+        rng.shuffle(legs)
+        dtype = rng.choice(arrgen.DTYPES)
+        labels = None
+        if rng.random() < 0.8:
+            labels = rng.sample(self.FUSION_LABELS, rank)
+            labels = [None if rng.random() < 0.15 else l for l in labels]
+        d = arrgen.gen_tensor(rng, mods, legs, dtype=dtype, labels=labels, p_store=rng.choice([0.5, 0.8, 1.0]))
+        case = dict(operands=[d], steps=[], mods=mods, stream='fusion')
+        self.pool, self.mods = legs, mods
+        self.cplx = dtype.startswith('complex')
+        case['scalar'] = 'gint' if self.cplx else 'int'
+        try:
+            vals = [self.ex.io.make_array(d)]
+        except Exception:
+            return case
+        npc = self.npc
+
+        def emit(st, sure):
+            st['malformed'] = False
+            st['sure'] = sure
+            try:
+                res, _ = self.ex.run(vals, st)
+            except Exception:
+                return None
+            if not isinstance(res, npc.Array) or res.rank > 7:
+                return None
+            if int(np.prod(res.shape)) > MAX_SIZE:
+                return None
+            case['steps'].append(st)
+            vals.append(res)
+            return len(vals) - 1
+
+        def transpose(i):
+            a = vals[i]
+            perm = list(range(a.rank))
+            rng.shuffle(perm)
+            return emit(dict(op='transpose', via=rng.choice(['transpose', 'itranspose']), **{'in': [i]},
+                             axes=[self.axis_arg(a, k) for k in perm]), True)
+
+        def combine(i):
+            a = vals[i]
+            if a.rank < 2:
+                return None
+            groups, new_axes = self.fusion_groups(rng, a.rank) if a.rank >= 5 else ([sorted(rng.sample(range(a.rank), 2))], None)
+            for g in groups:
+                if np.prod([a.legs[k].block_number for k in g]) > 60:
+                    return None
+            st = dict(op='combine_legs', **{'in': [i]}, cl=[[self.axis_arg(a, k) for k in g] for g in groups])
+            if new_axes is not None:
+                st['new_axes'] = new_axes
+            r = rng.random()
+            st['qconj'] = [None] if r < 0.5 else [rng.choice([1, -1])] if r < 0.7 else [rng.choice([1, -1]) for _ in groups]
+            return emit(st, False)
+
+        def split(i):
+            a = vals[i]
+            pipes = [k for k, l in enumerate(a.legs) if isinstance(l, npc.LegPipe)]
+            if not pipes or sum(l.nlegs if k in pipes else 1 for k, l in enumerate(a.legs)) > 7:
+                return None
+            axes = None if rng.random() < 0.5 else [self.axis_arg(a, k) for k in rng.sample(pipes, rng.randint(1, len(pipes)))]
+            return emit(dict(op='split_legs', **{'in': [i]}, axes=axes), False)
+
+        def contract(i):
+            """tensordot with the conjugate over the pipes (and more legs: the result keeps <= 2 legs of each)"""
+            a = vals[i]
+            j = emit(dict(op='conj', via='conj', **{'in': [i]}), True)
+            if j is None:
+                return None
+            pipes = [k for k, l in enumerate(a.legs) if isinstance(l, npc.LegPipe)]
+            others = [k for k in range(a.rank) if k not in pipes]
+            rng.shuffle(others)
+            keep = others[:rng.choice([0, 1, 1, 2])]
+            con = [k for k in range(a.rank) if k not in keep]
+            rng.shuffle(con)
+            csize = int(np.prod([a.shape[k] for k in con])) if con else 1
+            if self.mag(a) ** 2 * max(1, csize) > MAX_MAG or not con:
+                return None
+            b = vals[j]
+            return emit(dict(op='tensordot', **{'in': [i, j]},
+                             axes=[[self.axis_arg(a, k) for k in con], [self.axis_arg(b, k) for k in con]]), True)
+
+        cur = 0
+        if rng.random() < 0.5:
+            cur = transpose(cur) or cur
+        c = combine(cur)
+        if c is None:
+            c = combine(cur)
+        if c is None:
+            return case
+        budget = min(max_steps, 7)
+        todo = rng.sample(['split', 'tsplit', 'contract', 'nest', 'split'], rng.choice([1, 2, 2, 3]))
+        for what in todo:
+            if len(case['steps']) >= budget:
+                break
+            if what == 'split':
+                split(c)
+            elif what == 'tsplit':
+                t = transpose(c)
+                if t is not None:
+                    split(t)
+            elif what == 'contract':
+                contract(c)
+            elif what == 'nest':
+                n = combine(c)
+                if n is not None and rng.random() < 0.7:
+                    split(n)
+        return case
+
     # ------------------------------------------------------------------ helpers
     def pick(self, arrs, vals, pred=None):
         cand = [i for i in arrs if pred is None or pred(vals[i])]
@@ -819,3 +1003,118 @@ class ProgGen:
         if st['op'] == 'spec':
             return None
         return st
+
+    # ------------------------------------------------------------------ nested pipes with anonymous legs inside
+    def gen_nested_label_case(self, rng, max_steps):
+        """Dedicated stream for the label bookkeeping of NESTED pipes: a tensor of rank 3-6 with some unlabelled
+        legs -> combine_legs of a group containing an unlabelled leg (inner pipe label '(?1.c)') -> [label-preserving
+        operation] -> combine_legs of that pipe with other legs ('(a.(?1.c))', up to three levels) -> split_legs level
+        by level, addressing legs by the labels that must have survived. Labels of every step are compared with the
+        documented rules (oracle) and with the Lean label model (`Label.combine` / `Label.splitChars`)."""
+        self.rng = rng
+        mods = npcgen.gen_mods(rng, max_q=2)
+        rank = rng.choice([3, 4, 4, 5, 5, 6])
+        pool = arrgen.gen_leg_pool(rng, mods, n=3, max_blocks=3, max_size=2)
+        legs = arrgen.pick_legs(rng, pool, rank, max_total=300)
+        rank = len(legs)
+        if rank < 3:
+            return dict(operands=[], steps=[], mods=mods)
+        names = rng.sample(['a', 'b', 'c', 'd', 'p', 'q', 'vL', 'vR', 'a*', 'p*', 'x1'], rank)
+        n_none = rng.randint(1, max(1, rank - 2))
+        none_at = set(rng.sample(range(rank), n_none))
+        labels = [None if k in none_at else names[k] for k in range(rank)]
+        dtype = rng.choice(arrgen.DTYPES)
+        d = arrgen.gen_tensor(rng, mods, legs, dtype=dtype, labels=labels)
+        case = dict(operands=[d], steps=[], mods=mods, stream='nested_labels')
+        self.pool, self.mods = pool, mods
+        self.cplx = dtype.startswith('complex')
+        case['scalar'] = 'gint' if self.cplx else 'int'
+        try:
+            vals = [self.ex.io.make_array(d)]
+        except Exception:
+            return case
+        npc = self.npc
+
+        def emit(st, sure=True):
+            st['malformed'] = False
+            st['sure'] = sure
+            try:
+                res, _ = self.ex.run(vals, st)
+            except Exception:
+                res = None        # kept: an error on these calls is a finding, the step stays in the program
+            case['steps'].append(st)
+            vals.append(res if isinstance(res, npc.Array) else None)
+            return len(vals) - 1 if isinstance(res, npc.Array) else None
+
+        def ax(a, k):             # prefer the label where there is one (labels must be usable after every step)
+            if a._labels[k] is not None and rng.random() < 0.7:
+                return a._labels[k]
+            return k if rng.random() < 0.6 else k - a.rank
+
+        cur = 0
+        # ---- level 1: a group with an anonymous leg inside
+        a = vals[cur]
+        anon = [k for k in range(a.rank) if a._labels[k] is None]
+        first = rng.choice(anon)
+        others = [k for k in range(a.rank) if k != first]
+        grp = [first] + rng.sample(others, rng.choice([1, 1, 2]) if a.rank > 3 else 1)
+        rng.shuffle(grp)
+        if np.prod([a.legs[k].block_number for k in grp]) > 40:
+            return case
+        cur = emit(dict(op='combine_legs', **{'in': [cur]}, cl=[[ax(a, k) for k in grp]],
+                        qconj=[rng.choice([None, None, 1, -1])], via=rng.choice(['single', None])))
+        if cur is None:
+            return case
+        # ---- further levels: combine the pipe with other legs
+        levels = rng.choice([1, 1, 2])
+        for _ in range(levels):
+            a = vals[cur]
+            if rng.random() < 0.4:     # label-preserving / label-mapping operation in between
+                kind = rng.choice(['conj', 'scale', 'transpose', 'conjconj'])
+                if kind == 'transpose':
+                    perm = list(range(a.rank))
+                    rng.shuffle(perm)
+                    nxt = emit(dict(op='transpose', via='transpose', **{'in': [cur]}, axes=[ax(a, k) for k in perm]))
+                elif kind == 'scale':
+                    nxt = emit(dict(op='scale', via='__mul__', **{'in': [cur]}, s=rng.choice([-1, 2])))
+                else:
+                    nxt = emit(dict(op='conj', via='conj', **{'in': [cur]}))
+                    if nxt is not None and kind == 'conjconj':
+                        nxt = emit(dict(op='conj', via='iconj', **{'in': [nxt]}))
+                if nxt is None:
+                    return case
+                cur = nxt
+                a = vals[cur]
+            pipes = [k for k, l in enumerate(a.legs) if isinstance(l, npc.LegPipe)]
+            rest = [k for k in range(a.rank) if k not in pipes]
+            if not pipes or not rest or a.rank < 2:
+                break
+            grp = [rng.choice(pipes)] + rng.sample(rest, min(len(rest), rng.choice([1, 1, 2])))
+            if len(grp) == a.rank and a.rank > 2 and rng.random() < 0.5:
+                grp = grp[:-1]
+            rng.shuffle(grp)
+            if np.prod([a.legs[k].block_number for k in grp]) > 40:
+                break
+            nxt = emit(dict(op='combine_legs', **{'in': [cur]}, cl=[[ax(a, k) for k in grp]],
+                            qconj=[rng.choice([None, 1, -1])]))
+            if nxt is None:
+                return case
+            cur = nxt
+        # ---- split level by level
+        for _ in range(4):
+            a = vals[cur]
+            pipes = [k for k, l in enumerate(a.legs) if isinstance(l, npc.LegPipe)]
+            if not pipes:
+                break
+            if sum(l.nlegs if k in pipes else 1 for k, l in enumerate(a.legs)) > 7:
+                break
+            axes = None if rng.random() < 0.5 else [ax(a, k) for k in rng.sample(pipes, rng.randint(1, len(pipes)))]
+            nxt = emit(dict(op='split_legs', **{'in': [cur]}, axes=axes))
+            if nxt is None:
+                return case
+            cur = nxt
+            a = vals[cur]
+            labelled = [k for k in range(a.rank) if a._labels[k] is not None]
+            if labelled and rng.random() < 0.5:     # the surviving labels must address their legs
+                emit(dict(op='get_leg_index', **{'in': [cur]}, ax=a._labels[rng.choice(labelled)]))
+        return case
